@@ -49,6 +49,7 @@ import (
 	"github.com/libp2p/go-libp2p/core/network"
 	"github.com/libp2p/go-libp2p/core/peer"
 	"github.com/libp2p/go-libp2p/core/record"
+	ma "github.com/multiformats/go-multiaddr"
 
 	"context"
 
@@ -72,6 +73,7 @@ type frame struct {
 }
 
 type scenario struct {
+	Caps   map[string]int    `json:"caps"` // only on the blank line: the flood-protection caps of the class table
 	ID     int               `json:"id"`
 	Origin string            `json:"origin"`
 	Cfg    map[string]string `json:"cfg"`
@@ -216,6 +218,7 @@ type run struct {
 	nTestExt  int
 
 	knownID  string
+	nfresh   int
 	seq      uint64
 	hugeLeft int
 	nosign   bool
@@ -231,6 +234,13 @@ func (r *run) build() {
 	c := r.scn.Cfg
 	cfg := world.Config{Router: c["router"], Hosts: 6, MaxMsgSize: limit, DoPX: true,
 		Score: c["score"] == "on", Gater: c["gater"] == "on"}
+	// the flood-protection caps are those of the class table (Wire!Caps), small so that "exactly at the cap" is cheap
+	gp := world.SmallParams()
+	gp.MaxIHaveLength, gp.MaxIHaveMessages = caps["MaxIHaveLength"], caps["MaxIHaveMessages"]
+	gp.MaxIDontWantLength, gp.MaxIDontWantMessages = caps["MaxIDontWantLength"], caps["MaxIDontWantMessages"]
+	gp.PrunePeers, gp.GossipRetransmission = caps["PrunePeers"], caps["GossipRetransmission"]
+	gp.MaxPendingConnections, gp.Connectors = caps["MaxPendingConnections"], caps["Connectors"]
+	cfg.Params = &gp
 	if cfg.Router == "gossipsub" {
 		cfg.Router = ""
 	}
@@ -250,7 +260,7 @@ func (r *run) build() {
 	case "regexp":
 		opts = append(opts, pubsub.WithSubscriptionFilter(pubsub.NewRegexpSubscriptionFilter(regexp.MustCompile(`^T[0-9]+$`))))
 	case "limit":
-		opts = append(opts, pubsub.WithSubscriptionFilter(pubsub.WrapLimitSubscriptionFilter(allow, 3)))
+		opts = append(opts, pubsub.WithSubscriptionFilter(pubsub.WrapLimitSubscriptionFilter(allow, caps["SubLimit"])))
 	}
 	switch c["sign"] {
 	case "nosign":
@@ -449,6 +459,9 @@ func (r *run) huge() string {
 var manyOf = map[string]int{"nsub": 40, "nmsg": 40, "ngraft": 40, "nprune": 12, "npx": 10, "nihave": 10, "ihaveN": 10,
 	"niwant": 10, "iwantN": 10, "nidw": 10, "idwN": 10}
 
+// capOf is the flood-protection cap a count field is measured against.
+var capOf = map[string]string{"ihaveN": "MaxIHaveLength", "idwN": "MaxIDontWantLength", "npx": "PrunePeers"}
+
 func count(field, class string) int {
 	switch class {
 	case "0":
@@ -457,9 +470,21 @@ func count(field, class string) int {
 		return 1
 	case "few":
 		if field == "nsub" {
-			return 3
+			return caps["SubLimit"]
 		}
 		return 2
+	case "limp":
+		return caps["SubLimit"] + 1
+	case "capm":
+		return caps[capOf[field]] - 1
+	case "cap":
+		return caps[capOf[field]]
+	case "capp":
+		return caps[capOf[field]] + 1
+	case "pend":
+		return caps["MaxPendingConnections"] + caps["Connectors"]
+	case "pendp":
+		return caps["MaxPendingConnections"] + caps["Connectors"] + 1
 	case "many":
 		return manyOf[field]
 	}
@@ -571,10 +596,16 @@ func (r *run) message(f map[string]string, k, i int) *pb.Message {
 func (r *run) pxInfo(f map[string]string, i int) *pb.PeerInfo {
 	pi := &pb.PeerInfo{}
 	idc := f["pxId"]
-	if i > 0 && i%2 == 0 {
+	if i > 0 && i%2 == 0 && idc != "fresh" {
 		idc = "garbage"
 	}
+	var fresh crypto.PrivKey
 	switch idc {
+	case "fresh":
+		// a new identity; its valid record points at an address nobody listens on
+		fresh, _, _ = crypto.GenerateEd25519Key(r.rng)
+		id, _ := peer.IDFromPrivateKey(fresh)
+		pi.PeerID = []byte(id)
 	case "empty":
 		pi.PeerID = []byte{}
 	case "garbage":
@@ -611,7 +642,13 @@ func (r *run) pxInfo(f map[string]string, i int) *pb.PeerInfo {
 		id2, _ := peer.IDFromPrivateKey(r.o2)
 		pi.SignedPeerRecord = seal(&peer.PeerRecord{PeerID: id2, Addrs: r.o.Addrs(), Seq: 7}, r.o2)
 	case "valid":
-		pi.SignedPeerRecord = seal(&peer.PeerRecord{PeerID: r.o.ID(), Addrs: r.o.Addrs(), Seq: 7}, okey)
+		if fresh != nil {
+			r.nfresh++
+			hole := ma.StringCast(fmt.Sprintf("/ip4/10.%d.%d.%d/udp/4001/quic-v1", 200+r.nfresh>>16&0x1f, r.nfresh>>8&0xff, r.nfresh&0xff))
+			pi.SignedPeerRecord = seal(&peer.PeerRecord{PeerID: peer.ID(pi.PeerID), Addrs: []ma.Multiaddr{hole}, Seq: 7}, fresh)
+		} else {
+			pi.SignedPeerRecord = seal(&peer.PeerRecord{PeerID: r.o.ID(), Addrs: r.o.Addrs(), Seq: 7}, okey)
+		}
 	}
 	return pi
 }
@@ -654,7 +691,7 @@ func (r *run) rpc(f map[string]string, k int) []byte {
 		has = true
 	}
 	for i := 0; i < count("nprune", f["nprune"]); i++ {
-		p := &pb.ControlPrune{TopicID: r.topic(f["pruneTopic"], i, "P")}
+		p := &pb.ControlPrune{TopicID: r.topic(f["pruneTopic"], 0, "P")} // every PRUNE of the RPC names the same topic
 		switch f["backoff"] {
 		case "0":
 			p.Backoff = new(uint64)
@@ -886,6 +923,9 @@ func (r *run) step(k int, fr frame) {
 		c := fr.RPC.GetControl()
 		sent["msgs"] += len(fr.RPC.GetPublish())
 		sent["iwant"] += len(c.GetIwant())
+		for _, iw := range c.GetIwant() {
+			sent["iwantIds"] += len(iw.GetMessageIDs())
+		}
 		sent["ihave"] += len(c.GetIhave())
 		sent["graft"] += len(c.GetGraft())
 		sent["prune"] += len(c.GetPrune())
@@ -901,10 +941,18 @@ func (r *run) step(k int, fr frame) {
 	r.mu.Lock()
 	np, nt := r.nPartial, r.nTestExt
 	r.mu.Unlock()
-	inb := false
-	for _, p := range w.RawSnap().Inbound {
-		if p == r.h.ID() {
-			inb = true
+	// the node's own flood-protection counters for the hostile peer (coverage obligations only, never a verdict);
+	// the snapshot goes through the event loop, so it is only taken when the loop answers
+	inb, iasked, peerhave, peerdw, ticks := false, -1, -1, -1, -1
+	if eval {
+		st := w.RawSnap()
+		for _, p := range st.Inbound {
+			if p == r.h.ID() {
+				inb = true
+			}
+		}
+		if st.GS != nil {
+			iasked, peerhave, peerdw, ticks = st.GS.Iasked[r.h.ID()], st.GS.Peerhave[r.h.ID()], st.GS.Peerdontwant[r.h.ID()], int(st.GS.HeartbeatTicks)
 		}
 	}
 	ks := make([]string, 0, len(kinds))
@@ -923,7 +971,8 @@ func (r *run) step(k int, fr frame) {
 		"obs": M{"alive": true, "stream": hst, "gstream": gst, "hOut": r.h.InboundAlive() > 0, "gOut": r.g.InboundAlive() > 0,
 			"recv": recv, "eval": eval, "probe": r.wasDelivered(name), "throttled": throttled},
 		"info": M{"bytes": nbytes, "werr": werr, "rerr": herr, "nutInbound": inb, "ev": ks, "sent": ss, "dials": dials,
-			"partialCalls": np, "testExtCalls": nt, "t": hnet.NowMs()}})
+			"partialCalls": np, "testExtCalls": nt, "t": hnet.NowMs(),
+			"iasked": iasked, "peerhave": peerhave, "peerdontwant": peerdw, "ticks": ticks}})
 	if !eval {
 		// the event loop no longer answers: nothing can be shut down cleanly from here
 		os.Exit(5)
@@ -964,6 +1013,7 @@ func runScenario(t *testing.T, out *lineOut, idx int, s scenario, onlyFrame int)
 // blankOf gives the Tick pseudo-frame the blank class of every field (taken
 // from the scenario file: the orchestrator passes it as scenario -1's first frame).
 var blank map[string]string
+var caps map[string]int
 
 func blankOf(scenario) map[string]string { return blank }
 
@@ -1027,7 +1077,10 @@ func TestC12(t *testing.T) {
 			if err := json.Unmarshal(sc.Bytes(), &b); err != nil || b.ID != -1 || len(b.Frames) != 1 {
 				t.Fatal("c12: scenario file must start with the blank line")
 			}
-			blank = b.Frames[0].F
+			blank, caps = b.Frames[0].F, b.Caps
+			if len(caps) == 0 {
+				t.Fatal("c12: the blank line carries no caps")
+			}
 			continue
 		}
 		if only >= 0 {
